@@ -1065,3 +1065,39 @@ M('C19', 'circular detector frame mirrored (tuple unpacking)',
   'odl/tomo/geometry/detector.py',
   "        sin = self.__axis[0]\n        cos = -self.__axis[1]\n",
   "        sin, cos = self.__axis\n", 'CircularDetector')
+M('C20', 'uniform grids compared by corners only', 'odl/discr/grid.py',
+  """        return (type(other) is type(self) and
+                self.shape == other.shape and
+                all(np.array_equal(vec_s, vec_o)
+                    for (vec_s, vec_o) in zip(self.coord_vectors,
+                                              other.coord_vectors)))""",
+  """        if type(other) is not type(self) or self.shape != other.shape:
+            return False
+        if self.is_uniform and other.is_uniform:
+            return (np.array_equal(self.min_pt, other.min_pt) and
+                    np.array_equal(self.max_pt, other.max_pt))
+        return all(np.array_equal(vec_s, vec_o)
+                   for (vec_s, vec_o) in zip(self.coord_vectors,
+                                             other.coord_vectors))""",
+  'RectGrid.__hash__')
+M('C01', 'BLAS guard ignores the output array', 'odl/space/npy_tensors.py',
+  "not _blas_is_applicable(x1.data, x2.data, out.data)):",
+  "not _blas_is_applicable(x1.data, x2.data)):", 'layouts x1/x2/out=C/C/strided')
+MA('C01', 'BLAS arm ravels the operands in C order always', 'odl/space/npy_tensors.py',
+   '_lincomb_impl', 'x1_arr = x1.data.ravel(order=ravel_order)',
+   "x1_arr = x1.data.ravel(order='C')", 'layouts x1/x2/out=F/F/F')
+M('C03', 'block operator in-place arm assumes row-sorted storage', 'odl/operator/pspace_ops.py',
+  """            has_evaluated_row = np.zeros(len(self.range), dtype=bool)
+            for i, j, op in zip(self.ops.row, self.ops.col, self.ops.data):
+                if not has_evaluated_row[i]:
+                    op(x[j], out=out[i])""",
+  """            has_evaluated_row = np.zeros(len(self.range), dtype=bool)
+            current_row = -1
+            for i, j, op in zip(self.ops.row, self.ops.col, self.ops.data):
+                if i != current_row:
+                    current_row = i
+                    op(x[j], out=out[i])""",
+  'ProductSpaceOperator._call')
+MA('C03', 'block operator forgets to clear empty rows', 'odl/operator/pspace_ops.py',
+   'ProductSpaceOperator._call', 'out[i].set_zero()', 'pass',
+   'ProductSpaceOperator._call')
